@@ -313,8 +313,8 @@ CleanupDelete(h) ==
     /\ UNCHANGED <<trie, own, inh, tko, sp, delayed, wills, resumedBy, wiped, cpc, closing>>
 
 (* ------------------------------------------------------------------ environment             *)
-Drop(h) ==          \* the client closes its end
-    /\ pc[h] \in {"reading"} /\ ~stopped[h]
+Drop(h) ==          \* the client closes its end (also before it has had its CONNACK)
+    /\ pc[h] \in {"counted", "inherited", "registered", "acked", "established", "reading"} /\ ~stopped[h]
     /\ stopped' = [stopped EXCEPT ![h] = TRUE]
     /\ Log(h, "drop")
     /\ UNCHANGED <<pc, wg, cnt, reg, trie, own, inh, tko, sp, wire, delayed, wills, resumedBy, wiped, cpc, closing>>
